@@ -461,12 +461,22 @@ func c06Follower(c *Check) {
 		return
 	}
 	hbClamped := false
+	// commit sources: every call of commitTo (or of a thin wrapper that passes its own parameter on)
+	type commitSite struct {
+		cs     CallSite
+		argIdx int
+	}
+	var commitSites []commitSite
 	for _, cs := range p.CallsTo(commitTo) {
+		commitSites = append(commitSites, commitSite{cs, 1})
+	}
+	for i := 0; i < len(commitSites) && i < 64; i++ {
+		cs := commitSites[i].cs
 		fi := p.Info(cs.Caller)
 		site := p.site(cs.Instr)
 		args := callArgs(cs.Instr)
 		recv := fi.Sym(args[0])
-		arg := fi.Sym(args[1])
+		arg := fi.Sym(args[commitSites[i].argIdx])
 		switch cs.Caller {
 		case maybeAppend:
 			a := fi.Sym(maybeAppend.Params[1])
@@ -494,7 +504,23 @@ func c06Follower(c *Check) {
 				c.Ok("C06.F2", "heartbeat commit transformed by the receiver", fnName(cs.Caller), site, "receiver clamps itself; sender obligation relaxed", arg.Key())
 			}
 		default:
-			c.add(&Obligation{Rule: "C06.X", Construct: "unclassified commit source", Func: fnName(cs.Caller), Site: site, Status: StInfo, Detail: "inherits G-COMMIT-MONO/BOUND through lifting; listed for the reader"})
+			// a wrapper that forwards its own parameter: its callers are the commit sources
+			forwarded := false
+			if arg.K == KParam && cs.Caller != commitTo {
+				for pi, prm := range cs.Caller.Params {
+					if ssa.Value(prm) == arg.V {
+						forwarded = true
+						for _, cs2 := range p.CallsTo(cs.Caller) {
+							commitSites = append(commitSites, commitSite{cs2, pi})
+						}
+					}
+				}
+			}
+			if forwarded {
+				c.OkTrivial("C06.X", "commitTo wrapper", fnName(cs.Caller), site, "forwards its parameter; classified at its callers", arg.Key())
+				continue
+			}
+			c.Bad("C06.X", "unclassified commit source", fnName(cs.Caller), site, "the commit index moves only through: the follower clamp in maybeAppend, the leader's term-checked raftLog.maybeCommit, the snapshot fast-forward in restore, and the heartbeat handler", "commitTo("+arg.Key()+"): nothing establishes that the value is quorum-backed in the current term or verified against the leader's log")
 		}
 	}
 	// heartbeat and append literals
